@@ -95,6 +95,16 @@ func (idx *BlockerIndexer) Search(ctx context.Context, q *query.Query) ([]int64,
 	if err != nil {
 		return nil, fmt.Errorf("failed to parse query conditions: %w", err)
 	}
+	if err := indexer.CheckRangeOperands(conditions); err != nil {
+		return nil, err
+	}
+	for _, c := range conditions {
+		// the primary key holds the height as an integer: a float operand
+		// (block.height = 3.0) cannot be looked up
+		if _, isFloat := c.Operand.(float64); isFloat && c.CompositeKey == types.BlockHeightKey {
+			return nil, fmt.Errorf("%s: float operands are not supported by the indexer (integer expected)", types.BlockHeightKey)
+		}
+	}
 
 	// If the query is nothing but an exact height query, return the result
 	// immediately (if it exists). Next to other conditions, a height condition
